@@ -418,13 +418,17 @@ def gen_prod(ctx, n):
             sb = [rng.randint(1, 3) for _ in range(nb)]
             sb[-2 if nb >= 2 else 0] = k
         else:
+            # matmul: operands of rank 1–4; the batch axes (all but the last two) broadcast against each other, aligned
+            # on the right, either side may have fewer of them or size-1 entries
             k = rng.randint(1, 4)
-            na, nb = rng.randint(1, 3), rng.randint(1, 3)
-            sa = [rng.randint(1, 3) for _ in range(na - 1)] + [k]
-            sb = [rng.randint(1, 3) for _ in range(nb)]
-            sb[-2 if nb >= 2 else 0] = k
-            if na == 3 and nb == 3:
-                sb[0] = rng.choice([sa[0], 1])
+            na, nb = rng.choice([1, 2, 2, 3, 3, 4]), rng.choice([1, 2, 2, 3, 3, 4])
+            batch = [rng.randint(1, 3), rng.randint(1, 3)]
+
+            def bdims(nbatch):
+                out = batch[2 - nbatch:] if nbatch else []
+                return [1 if rng.random() < 0.3 else d for d in out]
+            sa = ([k] if na == 1 else bdims(na - 2) + [rng.randint(1, 3), k])
+            sb = ([k] if nb == 1 else bdims(nb - 2) + [k, rng.randint(1, 3)])
         dt = _dtype(rng)
         yield "prod", {"fn": fn, "a": enc(_rand(rng, sa, dt)), "b": enc(_rand(rng, sb, dt)),
                        "ca": [list(c) for c in U.rand_chunks(rng, sa)], "cb": [list(c) for c in U.rand_chunks(rng, sb)]}
